@@ -62,6 +62,7 @@ type fileCtx struct {
 	info      *types.Info
 	edits     []edit
 	usesVrt   bool
+	sysName   string // local name of the syscall import when a raw descriptor call was rewritten (kept alive at the end of the file)
 	handled   map[ast.Node]bool
 	recv2     map[*ast.UnaryExpr]bool
 	nsel      int
@@ -97,6 +98,9 @@ func (c *fileCtx) render(a, b int) string {
 	sb.Write(c.src[cur:b])
 	return sb.String()
 }
+
+// sysCalls: the raw descriptor calls the in-memory filesystem implements (zzvrt.Sys<Name>).
+var sysCalls = map[string]bool{"Write": true, "Pwrite": true, "Read": true, "Close": true, "Fsync": true, "Fdatasync": true, "Seek": true, "Ftruncate": true, "Open": true}
 
 func isChan(t types.Type) bool {
 	if t == nil {
@@ -175,6 +179,15 @@ func (c *fileCtx) collect() {
 					name = s.Name.Name
 				}
 				c.add(s.Pos(), s.End(), func() string { return name + " " + strconv.Quote(shim) })
+			}
+		case *ast.SelectorExpr:
+			// raw descriptor calls (syscall.Write(fd, b) ...) go to the in-memory filesystem like the os calls do
+			if id, ok := s.X.(*ast.Ident); ok {
+				if pn, ok := c.info.Uses[id].(*types.PkgName); ok && pn.Imported().Path() == "syscall" && sysCalls[s.Sel.Name] {
+					c.usesVrt = true
+					c.sysName = id.Name
+					c.add(s.Pos(), s.End(), func() string { return "zzvrt.Sys" + s.Sel.Name })
+				}
 			}
 		case *ast.ChanType:
 			c.usesVrt = true
@@ -559,6 +572,11 @@ func main() {
 				overlay[sf.dst] = sf.path
 			}
 			continue
+		}
+		if c.sysName != "" {
+			e := sf.f.End()
+			name := c.sysName
+			c.edits = append(c.edits, edit{c.off(e), c.off(e), func() string { return "\nvar _ = " + name + ".EINVAL // (instrumenter) keeps the import in use\n" }})
 		}
 		if c.usesVrt {
 			// import on the package clause line keeps line numbers intact
